@@ -138,10 +138,12 @@ class LiveClosureMonitor(Monitor):
     """C20 in the live loop: callbacks incl. empty-filter strategies, flags, retention (> 3600 s closed), release."""
 
     P = "C20"
+    WORKER_MARK = "closure-worker-stand-in"
 
     def __init__(self, run):
         super().__init__(run)
         self.cur = None
+        self.arrivals = {}
         self.closed_at = {}  # market id -> simulated time (s) of the close that is currently in force
         self.removed = []
 
@@ -154,7 +156,15 @@ class LiveClosureMonitor(Monitor):
         now = self.run.now
         # markets that have been closed for more than an hour must be removed by this close event, no others
         expected = sorted(m for m, t in self.closed_at.items() if fw.markets.markets.get(m) is not None and fw.markets.markets[m].closed and now - t > 3600)
-        self.cur = {"mid": mid, "pt": None if recorder else mb.publish_time_epoch, "recorder": recorder, "stream_id": stream_id, "market": market, "calls": {}, "removed": [], "expected_removed": expected, "was_closed": bool(market is not None and market.closed)}
+        self.cur = {"mid": mid, "pt": None if recorder else mb.publish_time_epoch, "recorder": recorder, "stream_id": stream_id, "market": market, "calls": {}, "removed": [], "expected_removed": expected, "was_closed": bool(market is not None and market.closed), "repeat": mid in self.closed_at}
+        arrivals = self.arrivals.get(mid)
+        after_close = arrivals.pop(0) if arrivals else (mid in self.closed_at)
+        if market is not None and mid in self.closed_at and after_close:
+            # a closing update for a market that is already closed is data arriving again: the market was re-opened
+            # (cleared flags reset) before this closure is processed. The flags were set by the harness after the
+            # previous close, standing in for the closure worker (poll_market_closure)
+            if self.WORKER_MARK in market.orders_cleared or self.WORKER_MARK in market.market_cleared:
+                self.violate(self.P, "C20.flags", "cleared-flags-not-reset-by-repeated-close", orders_cleared=list(market.orders_cleared), market_cleared=list(market.market_cleared))
         if recorder:
             self.res.probes["c20.live.recorder_mode_close"] += 1
             self.res.nontrivial = True
@@ -204,8 +214,12 @@ class LiveClosureMonitor(Monitor):
         if market is not None and mid not in c["removed"]:
             if market.closed is not True or market.date_time_closed is None:
                 self.violate(self.P, "C20.flags", "market-not-marked-closed", closed=market.closed)
-        if not c["was_closed"]:
+        # own journal: the hour of retention counts from the latest closing update of the market
+        if mid not in c["removed"]:
             self.closed_at[mid] = self.run.now
+            if market is not None:
+                market.orders_cleared.append(self.WORKER_MARK)
+                market.market_cleared.append(self.WORKER_MARK)
         if sorted(c["removed"]) != c["expected_removed"]:
             early = [m for m in c["removed"] if m not in c["expected_removed"]]
             late = [m for m in c["expected_removed"] if m not in c["removed"]]
@@ -216,11 +230,21 @@ class LiveClosureMonitor(Monitor):
             self.res.nontrivial = True
         for m in c["removed"]:
             self.closed_at.pop(m, None)
-        if c["was_closed"]:
+        if c["repeat"]:
             pr["c20.live.repeated_close"] += 1
             self.res.nontrivial = True
 
     def on_main_event(self, ev):
+        # closing updates in arrival order: did the update reach the main loop after the market's previous closure had
+        # been processed? (two streams may deliver the same closing line before either closure is processed)
+        if ev.EVENT_TYPE.name == "RAW_DATA":
+            for datum in ev.event[3]:
+                if "marketDefinition" in datum and datum["marketDefinition"].get("status") == "CLOSED":
+                    self.arrivals.setdefault(datum.get("id"), []).append(datum.get("id") in self.closed_at)
+        if ev.EVENT_TYPE.name == "MARKET_BOOK":
+            for mb in ev.event:
+                if mb.status == "CLOSED":
+                    self.arrivals.setdefault(mb.market_id, []).append(mb.market_id in self.closed_at)
         if ev.EVENT_TYPE.name == "RAW_DATA":
             for datum in ev.event[3]:
                 if datum.get("id") in self.closed_at and not ("marketDefinition" in datum and datum["marketDefinition"]["status"] == "CLOSED"):
